@@ -53,6 +53,47 @@ def judge(ctx, cases, shards, name, count=True, tag=""):
     return evs, rows, rej, hits, seen, nohello
 
 
+def re_cases(ctx, rescn):
+    out = []
+    for s in rescn:
+        c = {"id": s["id"], "sni": W.sni_name(s["sni"], ctx.seed), "mode": s["re"], "sni2": "", "group": 0, "scn": s}
+        if s["re"] == "sni":
+            c["sni2"] = W.sni_name(s["arg"], ctx.seed + 3)
+        else:
+            c["group"] = s["arg"]
+        out.append(c)
+    return out
+
+
+def judge_re(ctx, recases, shards, name, count=True, tag="re"):
+    """Re-marshalled hellos (SetSNI + MarshalClientHello, second ClientHello after a HelloRetryRequest): every Raw / wire
+    hello of the scenario is one row; row id = 3 * case + k (k = 0 first hello, 1 re-marshalled Raw, 2 wire)."""
+    for i, c in enumerate(recases):
+        c["sc"] = i
+    evs = [e for e in ctx.drv("remarshal", {"cases": recases}, prog=W.PROG, name=name) if e.get("ev") == "RM"]
+    if len(evs) != len(recases):
+        raise vlib.Machinery("harness returned %d events for %d re-marshal cases" % (len(evs), len(recases)))
+    evs = {e["sc"]: e for e in evs}
+    rows, broken = [], []
+    for c in recases:
+        e = evs[c["sc"]]
+        if e["panic"] or not e["h1"] or not e["h2"] or not e["w"]:
+            broken.append((c, e))
+            continue
+        for k, key in enumerate(("h1", "h2", "w")):
+            if c["mode"] == "hrr" and key == "w":
+                continue
+            rows.append({"sc": 3 * c["sc"] + k, "kind": "hello", "id": c["id"], "raw": e[key], "cap": []})
+    results, _ = W.validate(ctx, "Padding_Trace", "pad_trace.ndjson", rows, shards, count=count, tag=tag)
+    rej, wire_u = [], {}
+    for res in results:
+        for r in W.tagged(res, "REJ"):
+            rej.append({"sc": r[0], "flaws": sorted(r[1]), "u": r[2], "wpads": r[3]})
+        for h in W.tagged(res, "HITS"):
+            wire_u.update({x[0]: x[1] for x in h})
+    return evs, rows, rej, wire_u, broken
+
+
 def sig_of(case, r):
     who = case["scn"]["id"] if case["what"] == "hello" else "recap:" + case["origin"]
     return "pad:%s:%s" % (who, "+".join(r["flaws"]))
@@ -186,7 +227,30 @@ def run(ctx):
         ctx.finding("pad:nohello:%s" % (c["scn"]["id"] if c["what"] == "hello" else "recap:" + c["origin"]),
                     "no ClientHello on the wire: %s" % {k: e[k] for k in ("aerr0", "ferr1", "aerr1", "panic") if e[k]},
                     {"case": {k: c[k] for k in ("src", "sni", "sni2", "flags", "steps")}})
-    ctx.traces += len(rows) + len(rows2)
+    # re-marshalled hellos of one UConn: SetSNI to a shorter / longer name, second ClientHello after a HelloRetryRequest
+    rescn = W.tagged(mc, "RESCN")
+    if not rescn:
+        raise vlib.Machinery("Padding_MC emitted no re-marshal scenario (vacuous)")
+    recases = re_cases(ctx, rescn)
+    evs3, rows3, rej3, wire_u3, broken3 = judge_re(ctx, recases, 4 if ctx.quick else 12, "c05_re")
+    if rej3:
+        idx = sorted({r["sc"] // 3 for r in rej3})[:40]
+        again = [dict(recases[i]) for i in idx]
+        _, _, rej3b, _, _ = judge_re(ctx, again, 1, "c05_re_repro", count=False, tag="rerp")
+        seen_again = {(r["sc"] // 3, r["sc"] % 3) for r in rej3b}
+        for r in rej3:
+            c = recases[r["sc"] // 3]
+            if r["sc"] // 3 in idx and (idx.index(r["sc"] // 3), r["sc"] % 3) not in seen_again:
+                raise vlib.Machinery("C05: rejection of re-marshalled hello %r (%s) did not reproduce" % (c["scn"], r["flaws"]))
+            which = ("first", "re-marshalled Raw" if c["mode"] == "sni" else "second ClientHello", "wire")[r["sc"] % 3]
+            ctx.finding("pad:%s:%s:%s" % (c["id"], "remarshal-sni" if c["mode"] == "sni" else "hrr", "+".join(r["flaws"])),
+                        "padding policy violated in the %s hello (%s) of a UConn that marshals twice: unpadded length %d, padding bodies %s, scenario %s"
+                        % (which, ", ".join(r["flaws"]), r["u"], r["wpads"], c["scn"]),
+                        {"case": {k: c[k] for k in ("id", "sni", "mode", "sni2", "group")}, "hello": which, "flaws": r["flaws"], "u": r["u"], "wire_padding": r["wpads"]})
+    for c, e in broken3:
+        if e["panic"]:
+            ctx.finding("pad:%s:%s:panic" % (c["id"], c["mode"]), "panic while re-marshalling: %s" % e["panic"], {"case": {k: c[k] for k in ("id", "sni", "mode", "sni2", "group")}})
+    ctx.traces += len(rows) + len(rows2) + len(rows3)
     if ctx.findings:
         cov = {"evaluations": len(rows) + len(rows2), "distinct_nontrivial": len(rows), "rule": "see passing runs", "samples": [], "exhaustive": False}
         return "model_checking", cov, []
@@ -198,6 +262,25 @@ def run(ctx):
     if off:
         raise vlib.Machinery("C05: the wire hello does not have the unpadded length the assembly model predicted (scenario, wire u): %s" % off[:4])
     hits = {(c["scn"]["id"], c["scn"]["u"]) for c in cases if c["what"] == "hello" and c["scn"]["u"] in TARGETS}
+    nb = [(c["scn"], {k: e[k] for k in ("err", "serr") if e[k]}) for c, e in broken3]
+    if nb:
+        raise vlib.Machinery("C05: re-marshal scenarios without both hellos (not a padding judgement): %s" % nb[:3])
+    off3 = []
+    stats3 = {"sni_shrunk_padded": 0, "sni_grown": 0, "hrr_shrunk_padded": 0, "hrr_grown": 0}
+    for c in recases:
+        s = c["scn"]
+        want = [s["u1"], s["u"], s["u"]]
+        for k in range(2 if c["mode"] == "hrr" else 3):
+            if wire_u3.get(3 * c["sc"] + k) != want[k]:
+                off3.append((s, k, wire_u3.get(3 * c["sc"] + k)))
+        if s["u"] < s["u1"] and s["pad"] != -1:
+            stats3[c["mode"] + "_shrunk_padded"] += 1
+        if s["u"] > s["u1"]:
+            stats3[c["mode"] + "_grown"] += 1
+    if off3:
+        raise vlib.Machinery("C05: a re-marshalled hello does not have the unpadded length the model predicted (scenario, hello, wire u): %s" % off3[:4])
+    if not all(stats3.values()):
+        raise vlib.Machinery("C05 vacuity: re-marshal classes not all exercised: %r" % stats3)
     classes = {u for (_, u) in hits}
     if set(TARGETS) - classes:
         raise vlib.Machinery("C05 vacuity: boundary lengths never observed: %s" % sorted(set(TARGETS) - classes))
@@ -210,14 +293,16 @@ def run(ctx):
         perid.setdefault(i, set()).add(u)
     sample = [{"scenario": c["scn"], "wire_len": len(evs[c["sc"]]["a"]), "ext_types": W.ext_types(evs[c["sc"]]["a"])}
               for c in cases[:1] + [c for c in cases if c["what"] == "hello" and c["scn"]["pad"] == 1][:1]]
-    cov = {"evaluations": len(rows) + len(rows2),
-           "distinct_nontrivial": len({(c["scn"]["id"], c["scn"]["alpn"], c["scn"]["ticket"], c["scn"]["sni"]) for c in cases if c["what"] == "hello"}),
+    cov = {"evaluations": len(rows) + len(rows2) + len(rows3),
+           "distinct_nontrivial": len(recases) + len({(c["scn"]["id"], c["scn"]["alpn"], c["scn"]["ticket"], c["scn"]["sni"]) for c in cases if c["what"] == "hello"}),
            "rule": "TLC: all u in 0..700 x {boring, none, captured p in {1,2,3,4,5,6,17,200} -> refingerprinted}; per padding-bearing parrot x ALPN "
                    "{spec, none, [h2], [h2 http/1.1]} x ticket {absent, 120 B}: %s; evaluations = wire hellos judged by TLC; distinct = (parrot, alpn, ticket, "
-                   "sni length) points" % ("SNI lengths solved for u in {254..257, 506..513}" if ctx.quick else "every SNI length 1..253"),
+                   "sni length) points + re-marshal scenarios (SetSNI -40/-5/+5 then MarshalClientHello: both Raw values and the wire hello; second ClientHello "
+                   "after a real HelloRetryRequest for every listed group without a share) from the corner lengths" % ("SNI lengths solved for u in {254..257, 506..513}" if ctx.quick else "every SNI length 1..253"),
            "samples": sample, "exhaustive": not ctx.quick,
            "boring_parrots": boring, "boundary_lengths_hit_per_parrot": {i: sorted(v) for i, v in sorted(perid.items())},
            "seen": seen, "recaptured_from_parrots": len(pick), "recaptured_from_crafted": len(crafted),
-           "policy_none_parrots": nopad_ids, "canaries": ncan, "mc_scenarios": len(scns)}
+           "policy_none_parrots": nopad_ids, "canaries": ncan, "mc_scenarios": len(scns),
+           "remarshal_scenarios": len(recases), "remarshal_hellos_judged": len(rows3), "remarshal_classes": stats3}
     return "model_checking", cov, ["reflection dump of the padding style (GetPaddingLen == BoringPaddingStyle) is faithful",
                                     "TLSWire.ParseHello states the ClientHello framing"]
